@@ -18,4 +18,8 @@ func runC01(c *Ctx) {
 	c01TTL(c, "C01.ttl")
 	c01DecisionTable(c, "C01.decision-table")
 	c01WildsafeSpan(c, "C01.wildsafe-span")
+	c01TxtChunks(c, "C01.txt-chunks")
+	// whether a name is answered authoritatively or as a referral depends on both the located and the untagged rows
+	// being consulted at every step of the walk (an SOA stored untagged with a location-scoped NS is still the zone apex)
+	c.importRules(runC04, "C04", map[string]string{"untagged": "untagged"})
 }
